@@ -274,6 +274,7 @@ void run(const Json& plan)
         int budget = 0, pending = 0;
         bool stop = false;
         std::vector<int> fds;
+        std::set<int> ordinals; // creation ordinals of its sockets (see simk::sock_stats)
     } other;
     other.budget = std::max(0, std::min(8, static_cast<int>(plan.num("other_connections", 0))));
     std::thread other_thread;
@@ -313,6 +314,15 @@ void run(const Json& plan)
                 a.sin_port = htons(static_cast<uint16_t>(srv.port));
                 a.sin_addr.s_addr = htonl(INADDR_LOOPBACK);
                 ::connect(fd, reinterpret_cast<struct sockaddr*>(&a), sizeof a);
+                {
+                    sim::IgnoreScope ig;
+                    const auto& ss = simk::sock_stats();
+                    for (size_t i = ss.size(); i-- > 0;)
+                        if (ss[i].fd == fd && !ss[i].closed) {
+                            other.ordinals.insert(ss[i].ordinal);
+                            break;
+                        }
+                }
             }
         });
     }
@@ -381,17 +391,17 @@ void run(const Json& plan)
     // Root-cause attribution: a connection on which a request timed out is handed to the next request although the
     // answer to the timed-out one may still come (or the server is still busy with it). Everything that goes wrong on
     // such a connection afterwards carries the cause tag "after-time-out".
-    std::map<int, i64> timed_out_on_conn;
-    i64 first_timeout = -1;
-    for (auto& rs : reqs)
-        if (rs.rejected && rs.error == "Timeout") {
-            if (first_timeout < 0 || rs.settled_at < first_timeout) first_timeout = rs.settled_at;
-            if (rs.srv_conn >= 0 && (!timed_out_on_conn.count(rs.srv_conn) || rs.settled_at < timed_out_on_conn[rs.srv_conn])) timed_out_on_conn[rs.srv_conn] = rs.settled_at;
-        }
+    // (A request counts only if ANOTHER request timed out on its connection before it got there; its own time-out
+    // does not make it a consequence of anything.)
     auto after_timeout = [&](const ReqState& rs) {
-        i64 when = rs.settled_at >= 0 ? rs.settled_at : sim::now_ns();
-        if (rs.srv_conn >= 0) return timed_out_on_conn.count(rs.srv_conn) && timed_out_on_conn[rs.srv_conn] <= when;
-        return first_timeout >= 0 && first_timeout <= when;
+        for (auto& o : reqs) {
+            if (&o == &rs || !(o.rejected && o.error == "Timeout")) continue;
+            if (rs.srv_conn >= 0) {
+                if (o.srv_conn == rs.srv_conn && o.settled_at <= rs.srv_received_at) return true;
+            } else if (rs.issued_at >= 0 && o.settled_at <= (rs.settled_at >= 0 ? rs.settled_at : sim::now_ns()))
+                return true;
+        }
+        return false;
     };
     auto flag = [&](const ReqState& rs, const std::string& sig, const std::string& detail) {
         if (after_timeout(rs)) {
@@ -443,13 +453,38 @@ void run(const Json& plan)
             else if (rs.rejected && rs.settled_at > rs.srv_received_at + rs.timeout_ms * 1000000LL + margin + 500 * 1000000LL)
                 flag(rs, "C15.timeout:rejected-late", who + " was rejected " + std::to_string((rs.settled_at - rs.srv_received_at) / 1000000) + " ms after it reached the server");
         }
+        // a time-out runs from the moment the request is handed to the client at the earliest
+        if (rs.rejected && rs.error == "Timeout" && rs.issued_at >= 0 && rs.settled_at < rs.issued_at + rs.timeout_ms * 1000000LL)
+            flag(rs, "C15.timeout:rejected-before-the-time-out-expired", who + " was rejected as timed out " + std::to_string((rs.settled_at - rs.issued_at) / 1000) + " us after it was issued");
         if (rs.srv_received_at < 0 && rs.fulfilled) flag(rs, "C15.own-response:fulfilled-without-reaching-the-server", who + " was fulfilled although the server never saw it");
         if (rs.srv_received_at < 0) r.probe("request-never-sent");
     }
     r.stats["max_established"] = srv.max_established;
-    if (srv.max_established > max_conn)
-        r.violation("C15.connections:more-than-configured", std::to_string(srv.max_established) + " connections were established at once with a limit of " + std::to_string(max_conn) + " per host");
-    if (srv.max_established == max_conn && max_conn > 1) r.probe("connection-limit-reached");
+    // The limit is on the connections the client has at one time: its sockets from socket() to close(). (What the server
+    // sees established lags behind by the latency of a FIN when the client itself closes a connection and opens the next.)
+    {
+        std::vector<std::pair<i64, int>> ev;
+        for (auto& st : simk::sock_stats()) {
+            if (other.ordinals.count(st.ordinal)) continue;
+            ev.emplace_back(st.opened_at, +1);
+            if (st.closed_at >= 0) ev.emplace_back(st.closed_at, -1);
+        }
+        std::sort(ev.begin(), ev.end(), [](const std::pair<i64, int>& a, const std::pair<i64, int>& b) { return a.first != b.first ? a.first < b.first : a.second < b.second; });
+        int open_now = 0, max_open = 0;
+        for (auto& e : ev) {
+            open_now += e.second;
+            max_open = std::max(max_open, open_now);
+        }
+        r.stats["max_client_sockets"] = max_open;
+        if (max_open > max_conn)
+        {
+            std::string lst;
+            for (auto& st : simk::sock_stats())
+                if (!other.ordinals.count(st.ordinal)) lst += " [fd " + std::to_string(st.fd) + " " + std::to_string(st.opened_at / 1000) + ".." + (st.closed_at >= 0 ? std::to_string(st.closed_at / 1000) : std::string("open")) + " us]";
+            r.violation("C15.connections:more-than-configured", "the client had " + std::to_string(max_open) + " sockets to the host open at once with a limit of " + std::to_string(max_conn) + " per host:" + lst);
+        }
+    }
+    if (srv.max_established >= max_conn && max_conn > 1) r.probe("connection-limit-reached");
     if (srv.accepted > max_conn) r.probe("reconnected");
     for (auto& a : simk::anomalies())
         if (a.kind == "send.ebadf" || a.kind == "recv.ebadf") r.probe("syscall-on-closed-descriptor");
